@@ -569,27 +569,27 @@ pub fn generate(p: &GenParams, seed: u64) -> Case {
                 Stmt::Const(4, 1),
                 Stmt::SStore(7, 1, 4),
                 Stmt::Stop,
-                // mode 1: if SLOAD(0) == 0 { SSTORE(1 + r1 mod 4, r2 + 1) }
+                // mode 1: if SLOAD(0) == 0 { SSTORE(1 + r1 mod 8, r2 + 1) }
                 Stmt::Const(6, 1),
                 Stmt::Arith(6, 5, 6, Eq),
                 Stmt::IfZeroSkip(6, 10),
                 Stmt::Const(7, 0),
                 Stmt::SLoad(4, 7, 1),
                 Stmt::IfNonZeroSkip(4, 6),
-                Stmt::ModK(7, 1, 4),
+                Stmt::ModK(7, 1, 8),
                 Stmt::Const(6, 1),
                 Stmt::Arith(7, 7, 6, Add),
                 Stmt::Const(6, 1),
                 Stmt::Arith(3, 2, 6, Add),
                 Stmt::SStore(7, 16, 3),
                 Stmt::Stop,
-                // mode 2: slot[8 + r2 mod 4] = SLOAD(1 + r1 mod 4)   (never reads the flag)
-                Stmt::ModK(7, 1, 4),
+                // mode 2: slot[9 + r2 mod 4] = SLOAD(1 + r1 mod 8)   (never reads the flag)
+                Stmt::ModK(7, 1, 8),
                 Stmt::Const(6, 1),
                 Stmt::Arith(7, 7, 6, Add),
                 Stmt::SLoad(3, 7, 16),
                 Stmt::ModK(7, 2, 4),
-                Stmt::Const(6, 8),
+                Stmt::Const(6, 9),
                 Stmt::Arith(7, 7, 6, Add),
                 Stmt::SStore(7, 16, 3),
                 Stmt::Return(3),
